@@ -25,7 +25,7 @@ func init() {
 			"Close stops the loop, marks the partitions closed, then flushes in a loop bounded by Offsets.Retry.Max before the forced release (C06.close); NextOffset returns the position if ≥ 0 else the configured initial one (C06.next); only an ErrNoError answer can clear dirty and missing blocks are reported (C06.errors); pom/om state is accessed under its lock (C06.lock, lockset analysis). " +
 			"under a consumer group the session's MarkOffset/ResetOffset/MarkMessage/Commit hand every call on to the partition's offset manager, whatever the state of the session context (C06.session-forwards). " +
 			"NOT covered: that a later commit is actually issued (ticker/liveness), coordinator fault classes beyond their code paths.",
-		Rules: []func(*Ctx){c06Monotone, c06KeepDirty, c06Commit, c06Identity, c06Close, c06Remaining, c06Next, c06Errors, c06Lock, c06Version, c06ErrLost, c06Recover, c06ManageOnce, c06ScanBeforeNil, c06FinalFlushIgnoresClosing, c06LoopGoneBeforeFlush, c06RefreshReregisters, c06EveryFlushAttempts, c06CloseOnCommitError, c06FinalFlushExits, c06SessionForwards, c06DeferUnlockInLoop},
+		Rules: []func(*Ctx){c06Monotone, c06KeepDirty, c06Commit, c06Identity, c06Close, c06Remaining, c06Next, c06Errors, c06Lock, c06Version, c06ErrLost, c06Recover, c06ManageOnce, c06ScanBeforeNil, c06FinalFlushIgnoresClosing, c06LoopGoneBeforeFlush, c06RefreshReregisters, c06EveryFlushAttempts, c06CloseOnCommitError, c06FinalFlushExits, c06SessionForwards, c06DeferUnlockInLoop, c06RecursiveLock},
 	})
 }
 
